@@ -51,6 +51,9 @@ extern int fmc_env_nalts __attribute__((weak));
 int fmc_input(int n);
 // an explicit environment choice (cost 1 of E for every answer != 0)
 int fmc_env_choose(int nalts);
+// call immediately before the harness reads the environment (fmc_vticks): deviations are offered
+// only at operations that observe the environment, everything else commutes with them
+void fmc_env_observe(void);
 
 // expected-blocked bookkeeping is harness business; engine only needs to know
 // whether being stuck at quiescence is acceptable: harness calls fmc_end()
